@@ -289,6 +289,7 @@ collect(IMB_JOB *ret)
         }
 }
 
+#ifndef K7_NO_MAIN /* harness/k7_step.c includes this file for prepare()/collect() */
 int
 main(int argc, char **argv)
 {
@@ -453,3 +454,4 @@ main(int argc, char **argv)
         free_mb_mgr(mgr);
         return 0;
 }
+#endif /* K7_NO_MAIN */
